@@ -24,9 +24,20 @@
 (* FALSE).  The other readings are only used by Gen to tell the replayer    *)
 (* which outcomes differ from the code's by nothing but a boundary instant. *)
 (*                                                                         *)
-(* Through the API the submitted alert is always the younger one            *)
-(* (UpdatedAt = receive time, which never decreases), so the swap at the    *)
-(* top of alert.Merge is unreachable and not modelled.                      *)
+(* alert.Merge lets its argument be the younger alert unless the argument's *)
+(* UpdatedAt is BEFORE the receiver's (strict).  Through the API UpdatedAt  *)
+(* is the receive time, which never decreases, so with distinct stamps the  *)
+(* submission is the younger one.  EQUAL stamps are part of the model: all   *)
+(* alerts of one request body carry one stamp (postAlertsHandler reads the  *)
+(* clock once), and so do two requests served at one clock reading.  The    *)
+(* meaning of a body is fixed by the statement's "sequence of submissions": *)
+(* its alerts are applied in body order, each exactly as a single-alert     *)
+(* POST at that instant would be; at equal stamps the LATER SUBMISSION is   *)
+(* the younger alert (old.Merge(new) with the strict test does that).  Flag *)
+(* 7 is the other reading of the stamp comparison at equality (the stored   *)
+(* alert taken as the younger one); Gen uses it to recognise outcomes in    *)
+(* which an earlier submission overwrote a later one (OrderClauses tells    *)
+(* whether the statement forbids the outcome).                              *)
 (***************************************************************************)
 EXTENDS Integers, FiniteSets, Sequences, TLC
 
@@ -54,7 +65,7 @@ Put(f, k, v) == [x \in DOMAIN f \cup {k} |-> IF x = k THEN v ELSE f[x]]
 Drop(f, K)   == [x \in DOMAIN f \ K |-> f[x]]
 Min(a, b)    == IF a < b THEN a ELSE b
 
-NoTies == [i \in 1..6 |-> FALSE]
+NoTies == [i \in 1..7 |-> FALSE]
 Gt(a, b, f) == a > b \/ (f /\ a = b)     \* the code's reading is strict
 Lt(a, b, f) == a < b \/ (f /\ a = b)     \* the code's reading is strict
 Le(a, b, f) == a < b \/ (~f /\ a = b)    \* the code's reading is non-strict
@@ -109,12 +120,17 @@ Overlap(o, n, f) == \/ (Gt(n.end, o.start, f[1]) /\ Lt(n.end, o.end, f[2]))
 
 Resolved(a, t, f) == Le(a.end, t, f[5])
 
+\* o = the stored alert, n = the submission.  a = the older, y = the younger of the two:
+\* y = n unless the stamps are equal and flag 7 selects the other reading.
 MergeAlert(o, n, t, f) ==
-  LET st == IF o.start < n.start THEN o.start ELSE n.start
-      en == IF Resolved(n, t, f)
-              THEN IF Resolved(o, t, f) /\ o.end > n.end THEN o.end ELSE n.end
-              ELSE IF o.end > n.end /\ ~o.timeout THEN o.end ELSE n.end
-  IN [n EXCEPT !.start = st, !.end = en]
+  LET sw == f[7] /\ o.upd = n.upd
+      a  == IF sw THEN n ELSE o
+      y  == IF sw THEN o ELSE n
+      st == IF a.start < y.start THEN a.start ELSE y.start
+      en == IF Resolved(y, t, f)
+              THEN IF Resolved(a, t, f) /\ a.end > y.end THEN a.end ELSE y.end
+              ELSE IF a.end > y.end /\ ~a.timeout THEN a.end ELSE y.end
+  IN [y EXCEPT !.start = st, !.end = en]
 
 -----------------------------------------------------------------------------
 (* limit.Bucket: container/heap over a slice, transcribed (1-based)         *)
@@ -165,28 +181,35 @@ IsStale(h, t2)     == IF StaleRule = "impl" THEN IsStaleImpl(h, t2) ELSE AllExpi
 
 Rec(a) == [start |-> a.start, end |-> a.end, timeout |-> a.timeout, upd |-> a.upd]
 
-\* S = [store, buckets, limited, res]
+\* S = [store, buckets, limited, res, how]
+\* how (reported only): which path Put takes for the alert: "new", "replace" (ranges do not
+\* overlap), "merge"; "sreplace" / "smerge" when the stored alert carries the SAME stamp
+\* (an earlier alert of this body, or a request served at the same clock reading)
 PutOne(S, a, t, f) ==
-  IF ~ValidAlert(a) THEN [S EXCEPT !.res = Append(@, "invalid")]
+  IF ~ValidAlert(a) THEN [S EXCEPT !.res = Append(@, "invalid"), !.how = Append(@, "invalid")]
   ELSE
   LET fp  == a.fp
-      rec == IF fp \in DOMAIN S.store /\ Overlap(S.store[fp], Rec(a), f)
-               THEN MergeAlert(S.store[fp], Rec(a), t, f) ELSE Rec(a)
+      ex  == fp \in DOMAIN S.store
+      ov  == ex /\ Overlap(S.store[fp], Rec(a), f)
+      rec == IF ov THEN MergeAlert(S.store[fp], Rec(a), t, f) ELSE Rec(a)
+      hw  == IF ~ex THEN "new"
+             ELSE IF S.store[fp].upd = t THEN (IF ov THEN "smerge" ELSE "sreplace")
+             ELSE (IF ov THEN "merge" ELSE "replace")
   IN IF Limit > 0
        THEN LET name == NameOf(fp)
                 h    == IF name \in DOMAIN S.buckets THEN S.buckets[name] ELSE << >>
                 u    == Upsert(h, fp, rec.end, t, f)
             IN IF u.ok
                  THEN [store |-> Put(S.store, fp, rec), buckets |-> Put(S.buckets, name, u.h),
-                       limited |-> S.limited, res |-> Append(S.res, "ok")]
-                 ELSE [S EXCEPT !.limited = @ + 1, !.res = Append(@, "limited")]
-       ELSE [S EXCEPT !.store = Put(S.store, fp, rec), !.res = Append(@, "ok")]
+                       limited |-> S.limited, res |-> Append(S.res, "ok"), how |-> Append(S.how, hw)]
+                 ELSE [S EXCEPT !.limited = @ + 1, !.res = Append(@, "limited"), !.how = Append(@, hw)]
+       ELSE [S EXCEPT !.store = Put(S.store, fp, rec), !.res = Append(@, "ok"), !.how = Append(@, hw)]
 
 RECURSIVE PutSeq(_, _, _, _, _)
 PutSeq(S, as, i, t, f) == IF i > Len(as) THEN S ELSE PutSeq(PutOne(S, as[i], t, f), as, i + 1, t, f)
 
 RunBatch(batch, t, f) ==
-  PutSeq([store |-> store, buckets |-> buckets, limited |-> limited, res |-> << >>],
+  PutSeq([store |-> store, buckets |-> buckets, limited |-> limited, res |-> << >>, how |-> << >>],
          [i \in 1..Len(batch) |-> Defaulted(batch[i], t)], 1, t, f)
 
 Init == /\ now = 0 /\ store = << >> /\ buckets = << >> /\ limited = 0 /\ sil = NoSil
@@ -200,7 +223,7 @@ ApiPost(batch) ==
      /\ buckets' = R.buckets
      /\ limited' = R.limited
      /\ orph' = orph \ {Defaulted(batch[i], now).fp : i \in {j \in 1..Len(batch) : R.res[j] = "ok"}}
-     /\ last' = [op |-> "post", batch |-> batch, res |-> R.res,
+     /\ last' = [op |-> "post", batch |-> batch, res |-> R.res, how |-> R.how,
                  code |-> IF \E i \in 1..Len(batch) : R.res[i] = "invalid" THEN 400 ELSE 200]
      /\ UNCHANGED <<now, sil>>
 
@@ -276,36 +299,76 @@ BestEffort ==
        /\ \A fp \in DOMAIN store' : (fp \notin DOMAIN store \/ store[fp] # store'[fp])
                                        => \E i \in OkIdx : PostedA(i).fp = fp]_vars
 
+\* The clauses for ONE accepted submission a (defaulted), pre = the stored alerts before it,
+\* n = the stored alert of its label set after it.
 \* a missing startsAt becomes the receive time (or endsAt) unless an overlapping earlier
 \* submission is kept; overlapping submissions keep the earliest start
-StartRule ==
-  [][(IsPost /\ DistinctBatch(last'.batch, now)) =>
-       \A i \in OkIdx :
-         LET a == PostedA(i)
-             n == store'[a.fp]
-         IN IF a.fp \notin DOMAIN store THEN n.start = a.start
-            ELSE LET o == store[a.fp]
-                 IN /\ (o.end < a.start \/ a.end < o.start) => n.start = a.start
-                    /\ (a.start < o.end /\ o.start < a.end) => n.start = Min(o.start, a.start)
-                    /\ n.start \in {o.start, a.start}]_vars
-
+StartClause(pre, a, n) ==
+  IF a.fp \notin DOMAIN pre THEN n.start = a.start
+  ELSE LET o == pre[a.fp]
+       IN /\ (o.end < a.start \/ a.end < o.start) => n.start = a.start
+          /\ (a.start < o.end /\ o.start < a.end) => n.start = Min(o.start, a.start)
+          /\ n.start \in {o.start, a.start}
 \* a missing endsAt becomes receive time + resolve_timeout and is pushed forward by
 \* every re-send
+TimeoutClause(pre, a, n, t) ==
+  a.timeout => /\ n.end >= t + RT
+               /\ n.timeout
+               /\ (a.fp \notin DOMAIN pre \/ pre[a.fp].timeout) => n.end = t + RT
+\* an explicit end in the past resolves the alert immediately
+PastEndClause(a, n, t) == (~a.timeout /\ a.end < t) => n.end <= t
+
+StartRule ==
+  [][(IsPost /\ DistinctBatch(last'.batch, now)) =>
+       \A i \in OkIdx : StartClause(store, PostedA(i), store'[PostedA(i).fp])]_vars
 TimeoutRule ==
   [][(IsPost /\ DistinctBatch(last'.batch, now)) =>
-       \A i \in OkIdx :
-         LET a == PostedA(i)
-             n == store'[a.fp]
-         IN a.timeout => /\ n.end >= now + RT
-                         /\ n.timeout
-                         /\ (a.fp \notin DOMAIN store \/ store[a.fp].timeout) => n.end = now + RT]_vars
-
-\* an explicit end in the past resolves the alert immediately
+       \A i \in OkIdx : TimeoutClause(store, PostedA(i), store'[PostedA(i).fp], now)]_vars
 PastEndResolves ==
   [][(IsPost /\ DistinctBatch(last'.batch, now)) =>
-       \A i \in OkIdx :
-         LET a == PostedA(i)
-         IN (~a.timeout /\ a.end < now) => store'[a.fp].end <= now]_vars
+       \A i \in OkIdx : PastEndClause(PostedA(i), store'[PostedA(i).fp], now)]_vars
+
+\* A body that holds one label set more than once: its alerts are submissions in body
+\* order, so the clauses hold for each of them against the stored alerts left by the ones
+\* before it (Mid(k) = the store after the first k alerts of the body).
+Mid(k) == RunBatch(SubSeq(last'.batch, 1, k), now, NoTies).store
+DupRules ==
+  [][(IsPost /\ ~DistinctBatch(last'.batch, now)) =>
+       /\ Mid(Len(last'.batch)) = store'
+       /\ \A i \in OkIdx :
+            LET a == PostedA(i)
+                n == Mid(i)[a.fp]
+            IN /\ StartClause(Mid(i - 1), a, n)
+               /\ TimeoutClause(Mid(i - 1), a, n, now)
+               /\ PastEndClause(a, n, now)]_vars
+
+\* Submission order (any batch, any stamps - in particular EQUAL stamps): what the statement
+\* fixes about the stored alert n of a label set after a request, in terms of the LAST
+\* accepted submission a of that label set in the request: an earlier submission never
+\* overwrites it.  It is stored at this instant; a missing endsAt has pushed the end to
+\* now + resolve_timeout at least ("fire" or heartbeat after anything stays firing); an
+\* explicit end in the past has resolved the alert ("fire then resolve" ends resolved); an
+\* end that has not passed is never cut short, so GET keeps showing the alert; the start is
+\* never later than the submitted one.
+\* Not fixed by the statement (hence not part of these clauses) when two overlapping
+\* submissions carry one stamp: (i) whether an explicit future end e < now + RT submitted
+\* after an alert without endsAt ends the alert at e or at now + RT; (ii) the timeout flag
+\* when an alert without endsAt follows an explicit end later than now + RT (same end).
+LastOk(batch, res, t) ==
+  {i \in 1..Len(batch) : /\ res[i] = "ok"
+                         /\ \A j \in (i + 1)..Len(batch) :
+                               ~(res[j] = "ok" /\ Defaulted(batch[j], t).fp = Defaulted(batch[i], t).fp)}
+OrderClauses(batch, res, t, st2) ==
+  \A i \in LastOk(batch, res, t) :
+     LET a == Defaulted(batch[i], t)
+     IN /\ a.fp \in DOMAIN st2
+        /\ LET n == st2[a.fp]
+           IN /\ n.upd = t
+              /\ a.timeout => n.end >= t + RT
+              /\ (~a.timeout /\ a.end < t) => n.end <= t
+              /\ a.end > t => n.end >= a.end
+              /\ n.start <= a.start
+SubmissionOrder == [][IsPost => OrderClauses(last'.batch, last'.res, now, store')]_vars
 
 \* only resolved alerts are ever collected, and only by GC
 OnlyResolvedCollected ==
